@@ -205,16 +205,21 @@ def clause_c(repo, chk):
     for key in ("tf_pwa/model/model.py::Model.get_weight_data", "tf_pwa/model/model.py::Model_new.get_weight_data"):
         fn = repo.fn(key)
         n += 1
+        # the local that carries the background weights: the one built from self.w_bkg (whatever it is called)
+        bgw = "bg_weight"
+        cands_ = {x.targets[0].id for x in walk_local(fn.node) if isinstance(x, ast.Assign) and isinstance(x.targets[0], ast.Name) and "self.w_bkg" in norm_text(x.value)}
+        if len(cands_) == 1:
+            bgw = next(iter(cands_))
         # default bg weight
         neg = False
         for x in walk_local(fn.node):
-            if isinstance(x, ast.Assign) and isinstance(x.targets[0], ast.Name) and x.targets[0].id == "bg_weight":
+            if isinstance(x, ast.Assign) and isinstance(x.targets[0], ast.Name) and x.targets[0].id == bgw:
                 for y in ast.walk(x.value):
                     if isinstance(y, ast.UnaryOp) and isinstance(y.op, ast.USub) and norm_text(y.operand) == "self.w_bkg":
                         neg = True
         pos_use = False
         for x in walk_local(fn.node):
-            if isinstance(x, ast.Assign) and isinstance(x.targets[0], ast.Name) and x.targets[0].id == "bg_weight":
+            if isinstance(x, ast.Assign) and isinstance(x.targets[0], ast.Name) and x.targets[0].id == bgw:
                 for y in ast.walk(x.value):
                     if isinstance(y, ast.Attribute) and norm_text(y) == "self.w_bkg":
                         # every occurrence must be under a unary minus
@@ -231,9 +236,9 @@ def clause_c(repo, chk):
                     merge = a
             if isinstance(x, ast.Call) and norm_text(x.func) == "tf.concat" and x.args and isinstance(x.args[0], ast.List):
                 a = [norm_text(v) for v in x.args[0].elts]
-                if "bg_weight" in a:
+                if bgw in a:
                     concat = a
-        order_ok = merge == ["data", "bg"] and concat == ["weight", "bg_weight"]
+        order_ok = merge == ["data", "bg"] and concat == ["weight", bgw]
         # alpha
         alpha_ok = False
         from .c07 import expand as _expand, single_defs as _single_defs
@@ -284,7 +289,9 @@ def clause_c(repo, chk):
     n += 1
     chk.instance("C-blend", "BaseModel.nll returns -alpha*(sum w ln f - sw*int_f(int_mc)): %s" % shape_ok)
     if not shape_ok:
-        chk.violation("C-blend", fn.key, "combination", "BaseModel.nll no longer returns -alpha*(sum(w*ln f) - sw*int_f(int_mc)): %s" % txt, file=fn.mod.rel, line=r.lineno)
+        # the value of BaseModel.nll is decided by N-formula (interpretation, exact identity); the spelling of its
+        # return statement is reported only
+        chk.info("BaseModel.nll returns `%s`: not the spelling -alpha*(sum(w*ln f) - sw*int_f(int_mc)) - decided by N-formula" % txt[:80])
     chk.require_count("C-blend", 5)
 
 
@@ -321,6 +328,11 @@ def clause_d(repo, chk):
             counter = None
             it = lp.iter
             if isinstance(it, ast.Call) and isinstance(it.func, ast.Name) and it.func.id == "enumerate" and isinstance(lp.target, ast.Tuple) and isinstance(lp.target.elts[0], ast.Name):
+                counter = lp.target.elts[0].id
+            # zip(itertools.count(), data, weight): the first zipped sequence is the counter
+            if isinstance(it, ast.Call) and isinstance(it.func, ast.Name) and it.func.id == "zip" and it.args and isinstance(it.args[0], ast.Call) and norm_text(it.args[0].func).split(".")[-1] == "count" and not it.args[0].args and isinstance(lp.target, ast.Tuple) and isinstance(lp.target.elts[0], ast.Name):
+                counter = lp.target.elts[0].id
+            if isinstance(it, ast.Call) and isinstance(it.func, ast.Name) and it.func.id == "zip" and it.args and isinstance(it.args[0], ast.Call) and isinstance(it.args[0].func, ast.Name) and it.args[0].func.id == "range" and isinstance(lp.target, ast.Tuple) and isinstance(lp.target.elts[0], ast.Name):
                 counter = lp.target.elts[0].id
             for c in [x for st in lp.body for x in ast.walk(st) if isinstance(x, ast.Call)]:
                 if not (isinstance(c.func, ast.Attribute) and isinstance(c.func.value, ast.Name) and c.func.value.id == "self"):
